@@ -206,12 +206,15 @@ class Execution:
                 raise Boom("list field resolved to a non-iterable")
             return [self.complete(t.type, nodes, v, path + (i,)) for i, v in enumerate(value)]
         if isinstance(t, ScalarType):
-            return serialize(t, value)
+            try:
+                return serialize(t, value)
+            except Boom as e:
+                raise Boom("unrepresentable leaf at %r: %s" % (path, e))
         if isinstance(t, EnumType):
             for ev in t.values:
                 if ev.value == value:
                     return ev.name
-            raise Boom("unknown enum value")
+            raise Boom("unrepresentable leaf at %r: unknown enum value" % (path,))
         if isinstance(t, ObjectType):
             rt = t
         else:
